@@ -81,6 +81,12 @@ def run(ctx):
         width = (nxt[0] - file_off) if nxt else 2
         ft = TB.fmt_type(s.fmt) if s.fmt else None
         probs = []
+        lit = None
+        if s.kind != 'load' and ft is None and isinstance(s.value, ast.Constant) and isinstance(s.value.value, bytes):
+            # the field written as a bytes literal: a big-endian integer of the width of the slice by construction
+            lit = int.from_bytes(s.value.value, 'big')
+            if len(s.value.value) == s.width:
+                ft = ('big', 'uint', s.width)
         if s.width != width:
             probs.append('%d bytes are accessed, BinField.%s is %d bytes wide' % (s.width, name, width))
         if ft is None:
@@ -100,7 +106,10 @@ def run(ctx):
                 probs.append('`%s` is a %s of %s but BinField.%s holds %s' % (
                     U(s.value)[:30], got[0].lower(), got[1], name,
                     'the %s of %s' % (BINROLE[name][0].lower(), BINROLE[name][1]) if name in BINROLE else 'something else'))
-            if name == 'Format' and not (isinstance(s.value, ast.Constant) and s.value.value in (1, 5)) and \
+            if name == 'Format' and lit is not None:
+                if lit not in (1, 5):
+                    probs.append('the format code %d is stored (only 1 and 5 are written by the exporter)' % lit)
+            elif name == 'Format' and not (isinstance(s.value, ast.Constant) and s.value.value in (1, 5)) and \
                     'format' not in U(s.value).lower():
                 probs.append('`%s` is stored into the format-code field' % U(s.value)[:30])
         else:
